@@ -870,7 +870,7 @@ class CNLTransformer(Transformer):
                 entity.set_shifted_value(1, elem[3], element_variable)
             else:
                 entity.set_shifted_value(-1, elem[3], element_variable)
-        except AttributeGenericError as e:
+        except (AttributeGenericError, ValueError) as e:
             raise CompilationError(str(e), meta.line)
         return entity
 
@@ -883,7 +883,10 @@ class CNLTransformer(Transformer):
         if entity.entity_type != EntityType.LIST:
             raise CompilationError(f"Entity {entity.get_name()} is not a list.", meta.line)
         element_variable = elem[1] if elem[1] else self._new_field_value('element')
-        entity.set_index_value(int(elem[0]) - 1, element_variable)
+        try:
+            entity.set_index_value(int(elem[0]) - 1, element_variable)
+        except IndexError as e:
+            raise CompilationError(f'{e}: "{entity.get_entity_identifier()}" has no element number {elem[0]}', meta.line)
         return entity
 
     def complex_entity_parameter(self, elem):
